@@ -148,6 +148,11 @@ def run_check(ctx, args):
         cov.start()
     import_repo(ctx)
     mod = importlib.import_module(f"props.{prop.lower()}")
+    import adapter as _adapter
+
+    # every third tree that the checks build from a description is a lived-in one (harness/adapter.py: read with every kind of
+    # query, changed and changed back, read again) instead of a fresh one
+    _adapter.LIVED_IN = int(os.environ.get("VERIF_LIVED_IN", "3"))
     if proof_problems:
         ctx.search = True
     import pool as poolmod
@@ -159,7 +164,14 @@ def run_check(ctx, args):
         if args.replay:
             with open(args.replay) as f:
                 rp = json.load(f)
-            res = mod.replay(ctx, rp)
+            # a replay does not know whether the failing tree was a fresh or a lived-in one: both are tried
+            res = None
+            for lived in (0, 1):
+                _adapter.LIVED_IN = lived
+                res = mod.replay(ctx, rp)
+                res["lived_in_trees"] = bool(lived)
+                if not res.get("property_holds"):
+                    break
             print(json.dumps(res, indent=1, default=str, ensure_ascii=False))
             return 0 if res.get("property_holds") else 1
         try:
@@ -226,6 +238,7 @@ def run_check(ctx, args):
         notes=out.notes + ([f"escalated (thorough sizes, bounded time): changed since the pinned fingerprints: {ctx.changed[:8]}"] if ctx.escalated else []),
     )
     coverage.update(out.extra)
+    coverage["lived_in_trees"] = dict(_adapter.LIVED_STATS, every=_adapter.LIVED_IN)
     if ctx.tier == "thorough" and not proof_problems:
         rc, lc = core.run(["lake", "env", "leanchecker"] + core.prop_modules(prop, obligations_all), cwd=core.LEAN, timeout=3000)
         coverage["leanchecker_rc"] = rc
